@@ -289,6 +289,159 @@ Proof.
   - vm_compute. repeat split; reflexivity.
 Qed.
 
+(* ================================================================ renaming equivariance of the modelled evaluators
+   For every INJECTIVE renaming f : C -> C of the candidates (the only hypothesis), evaluating the renamed input gives the
+   renamed output - EXACT equality (elected candidates, ties with their members, seat dictionaries, refusals / errors,
+   for STV the whole trace), which is stronger than the comparison the property asks for (ties as sets).
+   Proofs: Proofs/Equivariant.v (equivariant combinators: map / filter / find / fold / flat_map / stable sort-by-key commute with
+   a renaming when their predicates / keys / steps do), Proofs/CondorcetRename_proofs.v, QDRename_proofs.v, STVRename_proofs.v,
+   CardinalRename_proofs.v, PAVRename_proofs.v.
+   Which models consult an ORDER on candidates (the only way a name could matter)?  None of Model/Condorcet.v,
+   QuotaDistributor.v, STV.v, GetNBest.v, HighestAverages.v and none of SPAV / score / MJ in Cardinal.v: candidates are only ever
+   compared with [ceqb] (Pos.eqb); iteration orders are insertion orders of the input (or the explicit [order] of Schulze).
+   The single exception is [pav] (ProportionalApproval): [canon_set] (Pos.ltb) stands for the iteration order of a Python
+   frozenset; C10_pav_iteration_order shows that order is immaterial up to the order of equally placed winners, and
+   C10_rename_pav_exact_refuted that exact equality is indeed lost there (a modelling artefact, not a finding: the
+   implementation iterates the frozenset in hash order and the property allows equally placed winners to swap).
+   Renamings: [renp] pairwise dictionary, [renl] candidate-keyed dictionary, [renkd] result dictionary with Tie keys,
+   [renv] ranked profile (shared ranks member by member), [renap] approval profile, [rens] score profile. *)
+From VL Require Import Model.Cardinal Proofs.Equivariant Proofs.CondorcetRename_proofs Proofs.QDRename_proofs Proofs.STVRename_proofs
+     Proofs.CardinalRename_proofs Proofs.PAVRename_proofs.
+From Coq Require Import Lia.
+Close Scope Q_scope.
+Close Scope Z_scope.
+Open Scope nat_scope.
+
+Definition injective (f : C -> C) : Prop := forall a b, f a = f b -> a = b.
+
+(* ---- the Condorcet family (priority 1) *)
+Theorem C10_rename_condorcet_blocks : forall f, injective f -> forall v ties,
+  candidates (renp f v) = map f (candidates v) /\ pairwise_wins (renp f v) ties = map (rp f) (pairwise_wins v ties) /\
+  beat_counts (renp f v) = renl f (beat_counts v) /\ complete (renp f v) = renp f (complete v).
+Proof. intros f Hf v t. exact (condorcet_blocks_ren f Hf v t). Qed.
+
+Theorem C10_rename_condorcet_winner : forall f, injective f -> forall v,
+  condorcet_winner (renp f v) = map f (condorcet_winner v).
+Proof. intros f Hf v. exact (condorcet_winner_ren f Hf v). Qed.
+
+Theorem C10_rename_copeland : forall f, injective f -> forall second_order v n,
+  copeland second_order (renp f v) n = map (ren_res f) (copeland second_order v n).
+Proof. intros f Hf so v n. exact (copeland_ren f Hf so v n). Qed.
+
+Theorem C10_rename_minimax : forall f, injective f -> forall s v n,
+  minimax s (renp f v) n = map (ren_res f) (minimax s v n).
+Proof. intros f Hf s v n. exact (minimax_ren f Hf s v n). Qed.
+
+(* [order] = the iteration order of the candidate set, renamed along *)
+Theorem C10_rename_schulze : forall f, injective f -> forall v order n,
+  schulze (renp f v) (map f order) n = map (ren_res f) (schulze v order n).
+Proof. intros f Hf v o n. exact (schulze_ren f Hf v o n). Qed.
+
+(* no hypothesis on the strengths: also on profiles with equal majorities the renamed run is the renamed result *)
+Theorem C10_rename_ranked_pairs : forall f, injective f -> forall s v n,
+  ranked_pairs s (renp f v) n = ren_cres f (ranked_pairs s v n).
+Proof. intros f Hf s v n. exact (ranked_pairs_ren f Hf s v n). Qed.
+
+Theorem C10_rename_kemeny : forall f, injective f -> forall v n,
+  kemeny (renp f v) n = ren_cres f (kemeny v n).
+Proof. intros f Hf v n. exact (kemeny_ren f Hf v n). Qed.
+
+(* SmithSet (ties = true) and the Schwartz routine (ties = false) *)
+Theorem C10_rename_smith_schwartz : forall f, injective f -> forall v ties,
+  smith_schwartz (renp f v) ties = map f (smith_schwartz v ties).
+Proof. intros f Hf v t. exact (smith_schwartz_ren f Hf v t). Qed.
+
+(* ---- the quota family (priority 2) *)
+Theorem C10_rename_quota_distributor : forall f, injective f ->
+  forall (quota : Q -> Z -> Q) (accept_equal : bool) (pol : policy) (votes : list (C * Q)) (n : Z) (prev caps : list (C * Z)),
+  qd_evaluate quota accept_equal pol (renl f votes) n (renl f prev) (renl f caps)
+  = ren_qd f (qd_evaluate quota accept_equal pol votes n prev caps).
+Proof. intros f Hf quota ae pol votes n prev caps. exact (qd_evaluate_ren f Hf quota ae pol votes n prev caps). Qed.
+
+Theorem C10_rename_largest_remainder : forall f, injective f ->
+  forall (quota : Q -> Z -> Q) (accept_equal : bool) (pol : policy) (votes : list (C * Q)) (n : Z) (prev caps : list (C * Z)),
+  lr_evaluate quota accept_equal pol (renl f votes) n (renl f prev) (renl f caps)
+  = ren_lr f (lr_evaluate quota accept_equal pol votes n prev caps).
+Proof. intros f Hf quota ae pol votes n prev caps. exact (lr_evaluate_ren f Hf quota ae pol votes n prev caps). Qed.
+
+Theorem C10_rename_quota_selector : forall f, injective f ->
+  forall (quota : Q -> Z -> Q) (accept_equal select : bool) (votes : list (C * Q)) (n : Z),
+  qsel_evaluate quota accept_equal select (renl f votes) n = ren_qs f (qsel_evaluate quota accept_equal select votes n).
+Proof. intros f Hf quota ae sel votes n. exact (qsel_evaluate_ren f quota ae sel votes n). Qed.
+
+(* the seats of a candidate read off a result dictionary *)
+Theorem C10_rename_seats : forall f, injective f -> forall d c, kdget (renkd f d) (f c) = kdget d c.
+Proof. intros f Hf d c. exact (kdget_ren f Hf d c). Qed.
+
+(* ---- the transferable-vote count (priority 3): the whole trace - every count's totals and elected, the seats, the stop *)
+Theorem C10_rename_stv : forall f, injective f ->
+  forall (cf : cfg) (votes : list (ballot * Q)) (n : Z) (prev caps : list (C * Z)),
+  stv cf (renv f votes) n (renl f prev) (renl f caps) = ren_trace f (stv cf votes n prev caps).
+Proof. intros f Hf cf votes n prev caps. exact (stv_ren f Hf cf votes n prev caps). Qed.
+
+(* ---- the approval / score family (priority 4) *)
+Theorem C10_rename_spav : forall f, injective f -> forall votes n,
+  spav (renap f votes) n = option_map (map f) (spav votes n).
+Proof. intros f Hf votes n. exact (spav_ren f Hf votes n). Qed.
+
+Theorem C10_rename_score_to_simple : forall f, injective f -> forall cf votes,
+  score_to_simple cf (rens f votes) = ren_inl f (score_to_simple cf votes).
+Proof. intros f Hf cf votes. exact (score_to_simple_ren f Hf cf votes). Qed.
+
+Theorem C10_rename_score_voting : forall f, injective f -> forall cf votes n,
+  score_voting cf (rens f votes) n = ren_rs f (score_voting cf votes n).
+Proof. intros f Hf cf votes n. exact (score_voting_ren f Hf cf votes n). Qed.
+
+Theorem C10_rename_majority_judgment : forall f, injective f -> forall plus cf votes n,
+  majority_judgment plus cf (rens f votes) n = ren_rs f (majority_judgment plus cf votes n).
+Proof. intros f Hf plus cf votes n. exact (majority_judgment_ren f Hf plus cf votes n). Qed.
+
+(* PAV with an explicit iteration order of the candidate set ([pav] = [pav_on] over the sorted list) *)
+Theorem C10_pav_on_canon : forall votes n, pav votes n = pav_on votes (canon_set (flat_map fst votes)) n.
+Proof. exact pav_on_canon. Qed.
+
+Theorem C10_rename_pav_on : forall f, injective f -> forall votes cands n,
+  pav_on (renap f votes) (map f cands) n = ren_ares f (pav_on votes cands n).
+Proof. intros f Hf votes cands n. exact (pav_on_ren f Hf votes cands n). Qed.
+
+(* any two iteration orders of the candidate frozenset (every hash seed): both refuse (tied alternatives), or the two results
+   are all plain winners, position by position of the same shape, with the same elected candidates *)
+Theorem C10_pav_iteration_order : forall votes cands cands' n, Permutation cands cands' ->
+  ares_equiv (pav_on votes cands n) (pav_on votes cands' n).
+Proof. exact pav_on_perm. Qed.
+
+Theorem C10_rename_pav : forall f, injective f -> forall votes n,
+  ares_equiv (ren_ares f (pav votes n)) (pav (renap f votes) n).
+Proof. intros f Hf votes n. exact (pav_rename f Hf votes n). Qed.
+
+(* ---- non-vacuity: a renaming that REVERSES the order of the names 1..10 *)
+Definition rev10 (c : C) : C := if (c <=? 10)%positive then (11 - c)%positive else c.
+Lemma rev10_injective : injective rev10.
+Proof.
+  intros a b. unfold rev10. destruct (a <=? 10)%positive eqn:Ea, (b <=? 10)%positive eqn:Eb;
+    try apply Pos.leb_le in Ea; try apply Pos.leb_le in Eb; try apply Pos.leb_gt in Ea; try apply Pos.leb_gt in Eb; intros H; lia.
+Qed.
+
+(* ... exact equality is lost for [pav] itself: two winners with equal satisfaction drop come out in the order of the NAMES
+   (the canonical iteration order), so the renamed run lists them the other way round - equivalent, not equal *)
+Theorem C10_rename_pav_exact_refuted : exists f votes n, injective f /\ pav (renap f votes) n <> ren_ares f (pav votes n).
+Proof.
+  exists rev10, [([1; 2]%positive, 1%Q)], 2. split; [exact rev10_injective|]. vm_compute. discriminate.
+Qed.
+
+Example C10_rename_example :
+  let v := mk_pv [(1,2,3);(2,1,1);(2,3,3);(3,2,1);(3,1,3);(1,3,1);(1,4,4);(4,1,0);(2,4,4);(4,2,0);(3,4,2);(4,3,2)]%Z in
+  minimax Margins (renp rev10 v) 1 = [TieR [9; 8; 10]]%positive /\ minimax Margins v 1 = [TieR [2; 3; 1]]%positive /\
+  schulze (renp rev10 v) (map rev10 [1; 2; 3; 4]%positive) 1 = [TieR [10; 9; 8]]%positive /\
+  ranked_pairs WinningVotes (renp rev10 v) 2 = CR_ok [Cand 10; Cand 9]%positive /\
+  qd_evaluate (quota_fn (QNamed 7)) true PSubtract (renl rev10 [(1%positive, 30#1); (2%positive, 30#1); (3%positive, 7#1)]%Q) 3 [] []
+    = QD_ok [(K 10%positive, 1%Z); (K 9%positive, 1%Z); (KT [10%positive; 9%positive], 1%Z)] /\
+  t_seats (stv C10_stv_cf (renv rev10 C10_stv_votes) 2 [] (renl rev10 [(1%positive, 1%Z); (2%positive, 1%Z); (3%positive, 1%Z); (4%positive, 1%Z)]))
+    = [(10%positive, 1%Z); (9%positive, 1%Z)] /\
+  pav [([1; 2]%positive, 1%Q)] 2 = AR_ok [Cand 1; Cand 2]%positive /\
+  pav (renap rev10 [([1; 2]%positive, 1%Q)]) 2 = AR_ok [Cand 9; Cand 10]%positive.
+Proof. vm_compute. repeat split; reflexivity. Qed.
+
 Print Assumptions C10_count_characterisation.
 Print Assumptions C10_order.
 Print Assumptions C10_symmetric.
@@ -315,3 +468,25 @@ Print Assumptions C10_quota_distributor_order.
 Print Assumptions C10_largest_remainder_order.
 Print Assumptions C10_quota_fn_ext.
 Print Assumptions C10_stv_order.
+Print Assumptions C10_rename_condorcet_blocks.
+Print Assumptions C10_rename_condorcet_winner.
+Print Assumptions C10_rename_copeland.
+Print Assumptions C10_rename_minimax.
+Print Assumptions C10_rename_schulze.
+Print Assumptions C10_rename_ranked_pairs.
+Print Assumptions C10_rename_kemeny.
+Print Assumptions C10_rename_smith_schwartz.
+Print Assumptions C10_rename_quota_distributor.
+Print Assumptions C10_rename_largest_remainder.
+Print Assumptions C10_rename_quota_selector.
+Print Assumptions C10_rename_seats.
+Print Assumptions C10_rename_stv.
+Print Assumptions C10_rename_spav.
+Print Assumptions C10_rename_score_to_simple.
+Print Assumptions C10_rename_score_voting.
+Print Assumptions C10_rename_majority_judgment.
+Print Assumptions C10_pav_on_canon.
+Print Assumptions C10_rename_pav_on.
+Print Assumptions C10_pav_iteration_order.
+Print Assumptions C10_rename_pav.
+Print Assumptions C10_rename_pav_exact_refuted.
